@@ -27,7 +27,8 @@ POS = [0, 1, 2 ** 31, 2 ** 63 - 1, 2 ** 64 - 1, 12345]
 # open(2) flags used by the live cases: O_APPEND O_CREAT O_TRUNC O_NONBLOCK O_NOATIME O_DSYNC O_SYNC O_NOFOLLOW O_CLOEXEC
 LIVE_BITS = [0o2000, 0o100, 0o1000, 0o4000, 0o1000000, 0o10000, 0o4010000, 0o400000, 0o2000000]
 TARGET_KINDS = ["reg", "reg", "reg", "reg_deleted_gone", "reg_deleted_present", "reg_space", "relative", "socket",
-                "pipe", "anon", "device", "dir", "nul_garbage", "missing", "under_file", "under_file_deleted", "toolong"]
+                "pipe", "anon", "device", "dir", "nul_garbage", "missing", "under_file", "under_file_deleted", "toolong",
+                "reg_dev_shm", "reg_dev_shm", "reg_dev_mqueue", "reg_dev_hugepages", "reg_run", "reg_sys", "reg_proc"]
 
 
 def _entry(rng, fd, allow3=True):
@@ -85,7 +86,7 @@ def gen_cases(rng, tier):
         n = rng.choice([1, 2, 3, 5, 8])
         ents = []
         for i in range(n):
-            kind = rng.choice(["reg", "reg", "reg", "reg_deleted_gone", "reg_deleted_present", "dir", "dev", "pipe", "socket"])
+            kind = rng.choice(["reg", "reg", "reg", "reg_deleted_gone", "reg_deleted_present", "dir", "dev", "pipe", "socket", "reg_shm"])
             acc = rng.choice([0, 1, 2])
             req = acc
             for b in LIVE_BITS:
@@ -406,6 +407,8 @@ def _paths(e, base):
         return "/dev/null", False, False
     if k == "dir":
         return base, False, False
+    if k in PSEUDO_REG:               # regular files living under /dev, /proc, /sys, /run (POSIX shm, mqueue, hugepages...)
+        return "%s/pv14 t%d" % (PSEUDO_REG[k], fd), True, True
     if k == "nul_garbage":
         return f + "\x00 (deleted)junk", False, True
     if k == "missing":
@@ -419,6 +422,9 @@ def _paths(e, base):
     raise ValueError(k)
 
 
+# regular files below directories that mostly hold device nodes / pseudo files: still regular files, still listed
+PSEUDO_REG = {"reg_dev_shm": "/dev/shm", "reg_dev_mqueue": "/dev/mqueue", "reg_dev_hugepages": "/dev/hugepages",
+              "reg_run": "/run/lock", "reg_sys": "/sys/kernel/debug", "reg_proc": "/proc/pv14"}
 DECOY_IO = (b"rchar: 424242\nwchar: 424242\nsyscr: 424242\nsyscw: 424242\nread_bytes: 424242\nwrite_bytes: 424242\n"
             b"cancelled_write_bytes: 0\n")
 BASE = "/pvbase"  # placeholder replaced by the worker's real directory; same length irrelevant to the model
@@ -481,6 +487,8 @@ def _live_target(e, base):
     f = "%s/l%d" % (base, e["fd"])
     if k == "reg":
         return f, True, True, e["pos"]
+    if k == "reg_shm":                # a real regular file below /dev (POSIX shared memory lives there)
+        return "/dev/shm/pv14_live_%d" % e["fd"], True, True, e["pos"]
     if k == "reg_deleted_gone":
         return f + " (deleted)", False, False, e["pos"]      # after unlink the cleaned path names no file: not listed
     if k == "reg_deleted_present":
@@ -491,7 +499,9 @@ def _live_target(e, base):
         return "/dev/null", True, False, 0
     if k == "pipe":
         return "pipe:[1]", False, False, 0
-    return "socket:[1]", False, False, 0
+    if k == "socket":
+        return "socket:[1]", False, False, 0
+    raise ValueError(k)
 
 
 def coq_struct(case, raw):
@@ -593,6 +603,7 @@ def impl_run(case, coq, env):
         os.makedirs(real_base)
         ents = case["ents"] if k == "table" else [{"fd": case["fd"], "kind": "reg", "closing": "open"}]
         fail_readlink = set()
+        stat_redirect = {}
         nul_links = {}
         fail_read = set()
         for idx, e in enumerate(ents):
@@ -605,7 +616,13 @@ def impl_run(case, coq, env):
             else:
                 os.symlink(os.fsencode(raw), os.fsencode(link))
             clean = cut[:-10] if cut.endswith(" (deleted)") else cut
-            if isreg:
+            if e["kind"] in PSEUDO_REG:
+                # no file is created outside the work directory: os.stat of that one path answers like a regular file
+                stand_in = os.path.join(real_base, "standin%d" % e["fd"])
+                with open(stand_in, "wb") as f:
+                    f.write(b"x")
+                stat_redirect[clean] = stand_in
+            elif isreg:
                 with open(clean, "wb") as f:
                     f.write(b"x")
             if e["kind"] in ("under_file", "under_file_deleted"):
@@ -662,6 +679,8 @@ def impl_run(case, coq, env):
         def fake_stat(path, *a, **kw):
             if not alive and isinstance(path, str) and (path + "/").startswith(os.path.join(root, str(pid)) + "/"):
                 raise FileNotFoundError(errno.ENOENT, "No such file or directory", path)
+            if isinstance(path, str) and path in stat_redirect:
+                return real_stat(stat_redirect[path], *a, **kw)
             return real_stat(path, *a, **kw)
         os.stat = fake_stat
         try:
@@ -708,12 +727,17 @@ def _impl_live(case, coq, env, psutil):
     os.makedirs(real_base)
     psutil.PROCFS_PATH = "/proc"
     opened = []
+    shm_files = []
     try:
         for idx, e in enumerate(case["ents"]):
             raw, ex, isreg, pos = _live_target(e, real_base)
             k, req, want = e["kind"], e["req"], e["fd"]
-            if k in ("reg", "reg_deleted_gone", "reg_deleted_present"):
+            if k == "reg_shm" and not os.access("/dev/shm", os.W_OK):
+                return {"t": "Skip", "a": ["/dev/shm not writable"]}
+            if k in ("reg", "reg_deleted_gone", "reg_deleted_present", "reg_shm"):
                 path = raw if k == "reg_deleted_present" else raw.replace(" (deleted)", "")
+                if k == "reg_shm":
+                    shm_files.append(path)
                 with open(path, "wb") as f:
                     f.write(b"0123456789")
                 fd = os.open(path, req)
@@ -740,7 +764,7 @@ def _impl_live(case, coq, env, psutil):
             os.dup2(fd, want, inheritable=False)
             os.close(fd)
             opened.append(want)
-            if k in ("reg", "reg_deleted_gone", "reg_deleted_present"):
+            if k in ("reg", "reg_deleted_gone", "reg_deleted_present", "reg_shm"):
                 with open("/proc/self/fdinfo/%d" % want, "rb") as f:
                     real = f.read()
                 printed = unB(coq["printed"][idx])
@@ -772,6 +796,11 @@ def _impl_live(case, coq, env, psutil):
         for fd in opened:
             try:
                 os.close(fd)
+            except OSError:
+                pass
+        for f in shm_files:
+            try:
+                os.unlink(f)
             except OSError:
                 pass
 
